@@ -37,6 +37,10 @@ from fractions import Fraction
 
 OUT_V = "/verif/coq/Gen/ScalarGen.v"
 OUT_JSON = "/verif/_work/gen/scalar_table.json"
+# abstract version of every formula (the partial / library operations are fields of a record
+# `ops`, see coq/Backend/AbsOps.v); used by the C08 elementwise theorems
+OUT_ABS_V = "/verif/coq/Gen/ScalarGenAbs.v"
+_ABS = [False]      # coq_t prints `/` as (op_div o a b) while this is set (abstract pown)
 
 
 class Unsupported(Exception):
@@ -325,6 +329,56 @@ def coq(e, zvars=()):
         if e[1] in FUN2 and len(e[2]) == 2:
             return "(%s %s %s)" % (FUN2[e[1]][0], coq(e[2][0], zvars), coq(e[2][1], zvars))
     raise Unsupported("cannot translate %r to a real-valued term" % (e[:2],))
+
+
+ABS_FUN1 = {"std::exp": "op_exp", "std::log": "op_ln", "std::tanh": "op_tanh", "std::sin": "op_sin",
+            "std::cos": "op_cos", "std::tan": "op_tan", "std::sqrt": "op_sqrt"}
+
+
+def coq_abs(e, zvars=()):
+    """Gallina term of type R over an arbitrary interpretation `o : ops` of the partial / library
+    operations: `/`, std::pow, exp, log, sqrt, tanh, sin, cos, tan are fields of o; + - * unary
+    minus, literals, abs, max/min and comparisons stay the operations of R."""
+    k = e[0]
+    if k == "num":
+        return coq_num(e[1])
+    if k == "v":
+        return "(IZR %s)" % e[1] if e[1] in zvars else e[1]
+    if k == "neg":
+        return "(- %s)" % coq_abs(e[1], zvars)
+    if k == "bin" and e[1] in BIN:
+        if e[1] == "/":
+            return "(op_div o %s %s)" % (coq_abs(e[2], zvars), coq_abs(e[3], zvars))
+        return "(%s %s %s)" % (coq_abs(e[2], zvars), e[1], coq_abs(e[3], zvars))
+    if k == "cmp" and e[1] in CMP:
+        return "(b01 (%s %s %s))" % (CMP[e[1]][0], coq_abs(e[2], zvars), coq_abs(e[3], zvars))
+    if k == "tern":
+        c = e[1]
+        if c[0] == "cmp" and c[1] in CMP:
+            return "(if %s %s %s then %s else %s)" % (CMP[c[1]][0], coq_abs(c[2], zvars), coq_abs(c[3], zvars),
+                                                    coq_abs(e[2], zvars), coq_abs(e[3], zvars))
+        raise Unsupported("ternary whose condition is not a float comparison")
+    if k == "call":
+        if e[1] in ABS_FUN1 and len(e[2]) == 1:
+            return "(%s o %s)" % (ABS_FUN1[e[1]], coq_abs(e[2][0], zvars))
+        if e[1] in FUN1 and len(e[2]) == 1:
+            return "(%s %s)" % (FUN1[e[1]][0], coq_abs(e[2][0], zvars))
+        if e[1] == "std::pow" and len(e[2]) == 2:
+            return "(op_pow o %s %s)" % (coq_abs(e[2][0], zvars), coq_abs(e[2][1], zvars))
+        if e[1] in FUN2 and len(e[2]) == 2:
+            return "(%s %s %s)" % (FUN2[e[1]][0], coq_abs(e[2][0], zvars), coq_abs(e[2][1], zvars))
+    raise Unsupported("cannot translate %r to a real-valued term" % (e[:2],))
+
+
+def abs_pown_def(coqdef, prefix=""):
+    """The pown definitions printed while _ABS was set, renamed and given the parameter o."""
+    p = prefix
+    s = coqdef.replace("Definition %spown_loop_cond (st" % p, "Definition a%spown_loop_cond (o : ops) (st" % p)
+    s = s.replace("Definition %spown_loop_body (st" % p, "Definition a%spown_loop_body (o : ops) (st" % p)
+    s = s.replace("while_fuel 32 %spown_loop_cond %spown_loop_body" % (p, p),
+                  "while_fuel 32 (a%spown_loop_cond o) (a%spown_loop_body o)" % (p, p))
+    s = s.replace("Definition %sfw_pown (x : R)" % p, "Definition a%sfw_pown (o : ops) (x : R)" % p)
+    return s
 
 
 def ast(e, order):
@@ -632,6 +686,8 @@ def coq_t(e, want, tenv, ren):
         return "(Z.abs %s)" % coq_t(e[2][0], "Z", tenv, ren)
     if k == "bin":
         a, b = coq_t(e[2], want, tenv, ren), coq_t(e[3], want, tenv, ren)
+        if want == "R" and e[1] == "/" and _ABS[0]:
+            return "(op_div o %s %s)" % (a, b)
         if want == "R" and e[1] in "+-*/":
             return "(%s %s %s)" % (a, e[1], b)
         if want == "N":
@@ -920,8 +976,13 @@ def collect():
             try:
                 coqdef, pydef, bw, s1, s2 = translate_pown(text, path)
                 coq(bw, zvars=("k",))
+                _ABS[0] = True
+                try:
+                    acoqdef = abs_pown_def(translate_pown(text, path)[0])
+                finally:
+                    _ABS[0] = False
                 defs.append({"name": "fw_pown", "params": ["x", "k"], "coqdef": coqdef, "pydef": pydef, "src": s1,
-                             "kind": "pown_fw", "update": "="})
+                             "kind": "pown_fw", "update": "=", "acoqdef": acoqdef})
                 defs.append({"name": "bw_pown", "params": ["x", "y", "gy", "k"], "expr": bw, "src": s2,
                              "kind": "pown_bw", "zvars": ["k"], "update": "+="})
             except Unsupported as ex:
@@ -984,6 +1045,36 @@ def render(defs, errors):
     return "\n".join(L) + "\n"
 
 
+def render_abs(defs, errors):
+    """Gen/ScalarGenAbs.v: a<name> o args, the same trees as Gen/ScalarGen.v with the partial / library
+    operations taken from an arbitrary `o : ops` (coq/Backend/AbsOps.v)."""
+    L = []
+    w = L.append
+    w("(* GENERATED by translate/gen_scalar.py from primitiv/devices/naive/ops/{common.h,*.cc} -- do not edit.")
+    w("   Abstract version of Gen/ScalarGen.v: same parsed trees, `/`, pow, exp, log, sqrt, tanh, sin, cos, tan")
+    w("   are the fields of an arbitrary interpretation o : ops.  Regenerated on every check. *)")
+    w("From Coq Require Import Reals ZArith NArith List String.")
+    w("From PV Require Import Scalar.ScalarBase Backend.AbsOps.")
+    w("Import ListNotations.")
+    w("Local Open Scope R_scope.")
+    w("")
+    for d in defs:
+        w("(* %s  %s *)" % (d["src"], d["kind"]))
+        if d.get("acoqdef"):
+            w(d["acoqdef"])
+        elif d.get("expr") is None:
+            w("(* NOT TRANSLATED: %s *)" % d.get("error", "").replace("*)", "* )"))
+            w("Definition a%s : gen_untranslatable := Untranslatable." % d["name"])
+        else:
+            zv = tuple(d.get("zvars", ()))
+            params = " ".join("(%s : %s)" % (p, "Z" if p in zv else "R") for p in d["params"])
+            w("Definition a%s (o : ops) %s : R :=\n  %s." % (d["name"], params, coq_abs(d["expr"], zv)))
+        w("")
+    w("Definition agen_names : list string :=")
+    w("  [" + "; ".join('"a%s"' % d["name"] for d in defs) + "]%string.")
+    return "\n".join(L) + "\n"
+
+
 def table(defs, errors):
     t = {"repo": repo(), "errors": errors, "defs": {}}
     for d in defs:
@@ -1015,6 +1106,11 @@ def write_if_changed(path, content):
 def main():
     defs, errors = collect()
     write_if_changed(OUT_V, render(defs, errors))
+    try:
+        write_if_changed(OUT_ABS_V, render_abs(defs, errors))
+    except Exception as ex:  # noqa: BLE001  (the abstract file serves C08 only; never disturb C01/C02)
+        write_if_changed(OUT_ABS_V, "(* GENERATED by translate/gen_scalar.py: abstract version could not be printed: %s *)\n"
+                         % str(ex).replace("*)", "* )"))
     write_if_changed(OUT_JSON, json.dumps(table(defs, errors), indent=1, sort_keys=True))
     return defs, errors
 
